@@ -212,6 +212,7 @@ type world struct {
 	cs      *crashStore
 	backend string // view (default) | root | flush | debug
 	dsk     *disk
+	hung    bool   // a request did not return: the process is of no further use
 	faultBy string // how fnext/frelease make a store call fail: "" = injected error on top of the wrappers, "close" = the database below them is closed
 	*lane           // the lane the current request works on
 	lanes   [2]*lane
@@ -435,19 +436,68 @@ func (w *world) exec(r *hx.Run, op string) string {
 		op = strings.Join(f, " ")
 	}
 	if f[0] == "parrel" {
-		return w.execCore(r, op)
+		ans, hung := w.guarded(r, op)
+		if hung {
+			r.Fail("progress", fmt.Sprintf("%q did not return within %v", op, opTimeout), map[string]string{"oracle": "hang", "after": f[0]})
+			w.hung = true
+		}
+
+		return ans
 	}
 	isOp := isSeqOp(f)
 	w.cs.trace = w.cs.trace[:0]
 	w.cs.tracing = isOp
-	ans := w.execCore(r, op)
+	ans, hung := w.guarded(r, op)
 	w.cs.tracing = false
+	if hung {
+		// the call never returned (it still holds whatever it holds): nothing more can be observed in this process
+		r.Fail("progress", fmt.Sprintf("%q did not return within %v", op, opTimeout), map[string]string{"oracle": "hang", "after": f[0]})
+		w.hung = true
+
+		return "hang"
+	}
 	out := ans + " | " + w.obs(r, f[0])
 	if isOp {
 		out += " c=" + string(w.cs.trace)
 	}
 
 	return out
+}
+
+// panicFinding (deferred in every goroutine that calls the code under test): a panic is a finding with the case's op lines,
+// not the death of the harness.
+func panicFinding(r *hx.Run, after string) {
+	if e := recover(); e != nil {
+		r.Fail("no-panic", fmt.Sprintf("the code under test panicked: %v", e), map[string]string{"oracle": "panic", "after": after})
+	}
+}
+
+var opTimeout = 30 * time.Second
+
+// guarded runs one request under a watchdog; a panic of the code under test (other than the injected crash, which is
+// recovered where it is injected) is a finding, not the death of the harness.
+func (w *world) guarded(r *hx.Run, op string) (ans string, hung bool) {
+	done := make(chan string, 1)
+	go func() {
+		defer func() {
+			if e := recover(); e != nil {
+				r.Fail("no-panic", fmt.Sprintf("%q panicked: %v", op, e), map[string]string{"oracle": "panic", "after": strings.Fields(op)[0]})
+				// the request was torn down in the middle: disarm every pending fault
+				w.cs.armed, w.cs.failAt, w.cs.closeAt = -1, 0, -1
+				w.dsk.closed.Store(false)
+				done <- "panic"
+			}
+		}()
+		done <- w.execCore(r, op)
+	}()
+	t := time.NewTimer(opTimeout)
+	defer t.Stop()
+	select {
+	case a := <-done:
+		return a, false
+	case <-t.C:
+		return "hang", true
+	}
 }
 
 func (w *world) setBackend(b string) {
@@ -705,6 +755,7 @@ func (w *world) execCore(r *hx.Run, op string) string {
 		stop := make(chan struct{})
 		wg.Add(1)
 		go func() {
+			defer panicFinding(r, "parrel")
 			defer wg.Done()
 			for {
 				select {
@@ -719,6 +770,7 @@ func (w *world) execCore(r *hx.Run, op string) string {
 		for i := 0; i < g; i++ {
 			nwg.Add(1)
 			go func() {
+				defer panicFinding(r, "parrel")
 				defer nwg.Done()
 				last, have := uint64(0), false
 				for j := 0; j < k; j++ {
@@ -785,6 +837,7 @@ func (w *world) execCore(r *hx.Run, op string) string {
 			for i := 0; i < 2; i++ {
 				frwg.Add(1)
 				go func(i int) {
+					defer panicFinding(r, "parfr")
 					defer frwg.Done()
 					for {
 						select {
@@ -812,6 +865,7 @@ func (w *world) execCore(r *hx.Run, op string) string {
 		for i := 0; i < g; i++ {
 			wg.Add(1)
 			go func() {
+				defer panicFinding(r, "par")
 				defer wg.Done()
 				for j := 0; j < k; j++ {
 					n, err := w.seq.Next()
@@ -859,7 +913,13 @@ func (w *world) execCore(r *hx.Run, op string) string {
 // judged by the Lean driver with the trace predicate of the C07_concurrent_* theorems (Hive/Model/SeqConc.lean,
 // histWhy); the implementation column is the constant `accept`.  Always the last request of a case.  On replay only
 // the fields before `h` are used: the scenario is executed again.
-func (w *world) execHist(r *hx.Run, op string) (string, string) {
+func (w *world) execHist(r *hx.Run, op string) (line string, ans string) {
+	defer func() {
+		if e := recover(); e != nil {
+			r.Fail("no-panic", fmt.Sprintf("%q panicked: %v", op, e), map[string]string{"oracle": "panic", "after": "chist"})
+			line, ans = op, "panic"
+		}
+	}()
 	f := strings.Fields(op)
 	spec := f
 	for i, t := range f {
@@ -888,6 +948,7 @@ func (w *world) execHist(r *hx.Run, op string) (string, string) {
 	var rwg, nwg sync.WaitGroup
 	rwg.Add(1)
 	go func() {
+		defer panicFinding(r, "chist")
 		defer rwg.Done()
 		for {
 			select {
@@ -901,6 +962,7 @@ func (w *world) execHist(r *hx.Run, op string) (string, string) {
 	for i := 0; i < g; i++ {
 		nwg.Add(1)
 		go func(i int) {
+			defer panicFinding(r, "chist")
 			defer nwg.Done()
 			for j := 0; j < k; j++ {
 				n, err := seq.Next()
@@ -984,7 +1046,7 @@ func (w *world) execHist(r *hx.Run, op string) (string, string) {
 
 		return strings.Join(p, ",")
 	}
-	line := head + " h"
+	line = head + " h"
 	for _, l := range perG {
 		line += " " + csv(l)
 	}
@@ -1154,6 +1216,10 @@ func runCase(r *hx.Run, sub uint64, ops []string) {
 			ans = w.exec(r, op)
 		}
 		r.Line(op, ans)
+		if w.hung {
+			r.Finish()
+			os.Exit(0)
+		}
 		bare := strings.TrimPrefix(op, "k2 ")
 		if bare != op {
 			r.Count("lane:k2")
@@ -1186,7 +1252,10 @@ func runCase(r *hx.Run, sub uint64, ops []string) {
 }
 
 // dry executes a case on a fresh world without emitting protocol lines and reports which property oracles failed.
-type dryRunner struct{ r *hx.Run }
+type dryRunner struct {
+	r    *hx.Run
+	hung bool // a request hung in a dry run: no more dry runs (each would cost the watchdog time), the case is run for the record
+}
 
 func newDry(outDir string) *dryRunner {
 	d := filepath.Join(outDir, "shrink")
@@ -1206,6 +1275,11 @@ func (d *dryRunner) fails(ops []string) map[string]bool {
 			w.execHist(d.r, op)
 		} else {
 			w.exec(d.r, op)
+		}
+		if w.hung {
+			d.hung = true
+
+			break
 		}
 	}
 	out := map[string]bool{}
@@ -1288,7 +1362,12 @@ func main() {
 		}
 		// search quality: a case on which a property oracle fails is first minimised (same oracle still failing) and the
 		// short history is run - and reported - before the long one
-		if failed := dry.fails(ops); len(failed) > 0 {
+		if dry.hung {
+			runCase(r, sub, ops)
+
+			continue
+		}
+		if failed := dry.fails(ops); len(failed) > 0 && !dry.hung {
 			names := make([]string, 0, len(failed))
 			for k := range failed {
 				names = append(names, k)
